@@ -31,6 +31,14 @@ Lemma jws_deserialize_compact_ok P g reg ka v : prims_ok P -> g_kid_repr g = tru
   needs_jws_compact g = true -> jws_reg_wf reg = true -> safe (jws_deserialize_compact g P reg ka v).
 Proof. intro H. use_ok H. apply jws_deserialize_compact_safe; assumption. Qed.
 
+Lemma jws_extract_then_validate_ok P g reg ka value : prims_ok P -> g_kid_repr g = true ->
+  needs_jws_compact g = true -> jws_reg_wf reg = true ->
+  match jws_extract_compact g P value with
+  | Ok o => safe (jws_validate g P reg ka true (cs_protected o) (cs_hseg o ++ 46 :: cs_pseg o) (cs_sseg o))
+  | Err e => allowed_exn e = true
+  end.
+Proof. intro H. use_ok H. apply jws_extract_then_validate_safe; assumption. Qed.
+
 Lemma jwt_decode_jws_ok P g reg ka v : prims_ok P -> g_kid_repr g = true ->
   needs_jws_compact g = true -> g_rec_claims g = true -> jws_reg_wf reg = true ->
   safe (jwt_decode_jws g P reg ka v).
